@@ -27,10 +27,11 @@ Theorem C07_result : forall (o c n : leafstate V) r x, sorted3 o c n ->
   x = snd o /\ merged V (fst o) (fst c) (fst n) r /\ r <> [].
 Proof. exact (MergeProofs.resolve_result V veq veq_spec). Qed.
 
-(* "the state obtained by applying both change sets" is unique *)
+(* "the state obtained by applying both change sets" is unique (given the
+   decidable value equality; for a bare type the statement is only ~~-provable) *)
 Theorem C07_merged_unique : forall o c n r r' : list (Z * V),
   merged V o c n r -> merged V o c n r' -> r = r'.
-Proof. exact (MergeProofs.merged_unique V). Qed.
+Proof. exact (MergeProofs.merged_unique_partial V veq veq_spec). Qed.
 
 (* never drops, invents or reorders an entry *)
 Theorem C07_no_invention : forall (o c n : leafstate V) r x k v, sorted3 o c n ->
